@@ -8,12 +8,17 @@
 //	...dielater...  register, synchronize, then exit on the first event
 //	...dropidle...  a healthy plugin whose connection goes away while the runtime is idle; the process stays
 //	...stubborn...  a healthy plugin that does not exit when its connection is closed (syncfail behaves so, too)
+//	...cfgfail...   registers, then fails its configuration; does not exit on its own either
+//
+// Every probe returns one update, for the container "syncupd-<its file name>", from Synchronize and
+// reports the state it was given (counts, first and last ids, a hash of all ids in order).
 package main
 
 import (
 	"context"
 	"encoding/json"
 	"fmt"
+	"hash/fnv"
 	"os"
 	"path/filepath"
 	"strings"
@@ -72,15 +77,29 @@ var theStub stub.Stub
 type plugin struct{}
 
 func (plugin) Configure(_ context.Context, config, runtime, version string) (api.EventMask, error) {
+	if strings.Contains(base, "cfgfail") {
+		appendLine("cfgfail.log", base)
+		return 0, fmt.Errorf("probe %s refuses its configuration", base)
+	}
 	write(fmt.Sprintf("config.%s.%d", base, os.Getpid()), map[string]string{"config": config, "runtime": runtime, "version": version})
 	return 0, nil
 }
 
-func (plugin) Synchronize(context.Context, []*api.PodSandbox, []*api.Container) ([]*api.ContainerUpdate, error) {
+func (plugin) Synchronize(_ context.Context, pods []*api.PodSandbox, ctrs []*api.Container) ([]*api.ContainerUpdate, error) {
 	if strings.Contains(base, "syncfail") {
 		return nil, fmt.Errorf("probe %s refuses to synchronize", base)
 	}
+	h := fnv.New64a()
+	for _, p := range pods {
+		fmt.Fprintf(h, "p:%s;", p.GetId())
+	}
+	for _, c := range ctrs {
+		fmt.Fprintf(h, "c:%s;", c.GetId())
+	}
+	write(fmt.Sprintf("syncstate.%s.%d", base, os.Getpid()), map[string]any{"pods": len(pods), "containers": len(ctrs), "idhash": fmt.Sprintf("%x", h.Sum64())})
 	appendLine("synced.log", base)
+	upd := &api.ContainerUpdate{ContainerId: "syncupd-" + base}
+	upd.SetLinuxCPUShares(uint64(os.Getpid()))
 	if strings.Contains(base, "dropidle") {
 		// a while after a successful start, while the runtime is idle, the connection goes away; the
 		// process itself stays around
@@ -90,7 +109,7 @@ func (plugin) Synchronize(context.Context, []*api.PodSandbox, []*api.Container) 
 			appendLine("dropped.log", base)
 		}()
 	}
-	return nil, nil
+	return []*api.ContainerUpdate{upd}, nil
 }
 
 func (plugin) CreateContainer(_ context.Context, _ *api.PodSandbox, c *api.Container) (*api.ContainerAdjustment, []*api.ContainerUpdate, error) {
@@ -101,6 +120,16 @@ func (plugin) CreateContainer(_ context.Context, _ *api.PodSandbox, c *api.Conta
 	a := &api.ContainerAdjustment{}
 	a.AddAnnotation("probe."+base, c.GetId())
 	return a, nil, nil
+}
+
+// staysAround: this probe ignores the loss of its connection: only a kill gets rid of it
+func staysAround() bool {
+	for _, m := range []string{"syncfail", "stubborn", "dropidle", "cfgfail"} {
+		if strings.Contains(base, m) {
+			return true
+		}
+	}
+	return false
 }
 
 func main() {
@@ -117,7 +146,7 @@ func main() {
 		os.Exit(8)
 	}
 	st, err := stub.New(plugin{}, stub.WithOnClose(func() {
-		if strings.Contains(base, "syncfail") || strings.Contains(base, "stubborn") || strings.Contains(base, "dropidle") {
+		if staysAround() {
 			// ignores the loss of its connection: only a kill gets rid of it
 			time.Sleep(120 * time.Second)
 		}
@@ -129,7 +158,7 @@ func main() {
 	}
 	theStub = st
 	err = st.Run(context.Background())
-	if strings.Contains(base, "syncfail") || strings.Contains(base, "stubborn") || strings.Contains(base, "dropidle") {
+	if staysAround() {
 		time.Sleep(120 * time.Second) // does not go away on its own
 	}
 	if err != nil {
